@@ -418,3 +418,62 @@ def enum_curved_thermal(tier):
 
 SUBS.append(Sub("elastic_curved", check_elastic, enum=enum_curved_elastic, doc="every 2D element type x bent geometry: spectrum of K, M SPD, total mass vs boundary-based areas"))
 SUBS.append(Sub("thermal_curved", check_thermal, enum=enum_curved_thermal, doc="every 2D element type x bent geometry: conduction kernel, capacity total vs boundary-based areas"))
+
+
+# (added by the lead) structures of several members with DIFFERENT sections and moduli: translational mass = rho sum A_i L_i, M
+# symmetric positive semi-definite, K symmetric positive semi-definite (two unconnected members: twice the rigid-body modes)
+
+
+@st.composite
+def structure_cases(draw):
+    spec = draw(gb.member_specs(dims=(2, 3), types=("SEG2", "SEG3", "SEG4")))
+    return dict(member=spec, rho=draw(st.integers(1, 12)) / 4.0, split=draw(st.integers(3, 7)) / 10.0,
+                b2=draw(st.integers(2, 6)) / 10.0, h2=draw(st.integers(2, 6)) / 10.0, E2=draw(st.integers(2, 20)) * 10.0, order=draw(st.booleans()))
+
+
+def check_structure(case, rec):
+    from EasyFEA import ElemType, Mesher
+    from EasyFEA.Geoms import Line, Point
+
+    spec = case["member"]
+    dim = spec["dim"]
+    kind = "timo" if spec["timoshenko"] else "eb"
+    sig = dict(elemType=spec["elemType"], dim=dim, kind=kind)
+    rec.label(f"structure:{kind}:{spec['elemType']}:{dim}d")
+    p1 = np.array(spec["p1"], float)
+    d = np.array(spec["d"], float)
+    L = float(np.linalg.norm(d))
+    pm, p2 = p1 + case["split"] * d, p1 + d
+    y0 = tuple(spec["yAxis"]) if spec.get("yAxis") else (0.0, 1.0, 0.0)
+    if np.linalg.norm(np.cross(d / L, y0)) <= 1e-6:
+        y0 = tuple(np.cross([0, 0, 1.0], d / L)) if np.linalg.norm(np.cross([0, 0, 1.0], d / L)) > 1e-6 else (1.0, 0.0, 0.0)
+    la = Line(Point(*p1), Point(*pm), L * case["split"] / 2)
+    lb = Line(Point(*pm), Point(*p2), L * (1 - case["split"]) / 2)
+    ba = Models.Beam.Isotropic(dim, la, gb._section(spec["b"], spec["h"]).copy(), spec["E"], spec["v"], yAxis=y0)
+    bb = Models.Beam.Isotropic(dim, lb, gb._section(case["b2"], case["h2"]).copy(), case["E2"], spec["v"], yAxis=y0)
+    beams = [ba, bb] if case["order"] else [bb, ba]
+    mesh = Mesher().Mesh_Beams(beams, elemType=ElemType(spec["elemType"]))
+    simu = Simulations.Beam(mesh, Models.Beam.BeamStructure(beams), useTimoshenko=bool(spec["timoshenko"]))
+    simu.rho = case["rho"]
+    mesh = simu.mesh
+    K, C, M, F = simu.Get_K_C_M_F()
+    K, M = orc.dense(K), orc.dense(M)
+    dof_n = simu.Get_dof_n()
+    N = mesh.Nn
+    _sym_psd(rec, K, "K", sig)
+    _sym_psd(rec, M, "M", sig)
+    A1 = gb.section_props(spec["b"], spec["h"])[0]
+    A2 = gb.section_props(case["b2"], case["h2"])[0]
+    ex = case["rho"] * (A1 * L * case["split"] + A2 * L * (1 - case["split"]))
+    rec.label("sections:equal" if abs(A1 - A2) < 1e-12 else "sections:different")
+    for dd in range(dim):
+        e = np.zeros((N, dof_n))
+        e[:, dd] = 1
+        tot = float(e.ravel() @ M[: N * dof_n, : N * dof_n] @ e.ravel())
+        rec.close(tot - ex, ex, 1e-9, "M_translational_mass", f"{kind} {spec['elemType']} two members (areas {A1:.3f}, {A2:.3f}): direction {dd}: "
+                  f"{tot!r} vs rho sum A_i L_i = {ex!r}", **sig)
+    rec.close(float(simu.mass) - ex, ex, 1e-10, "simu_mass", f"simu.mass={simu.mass!r} vs {ex!r}", **sig)
+    rec.nontrivial(abs(A1 - A2) > 1e-12)
+
+
+SUBS.append(Sub("beam_structure", check_structure, gen=structure_cases, quick=80, thorough=500, shards=4))
